@@ -53,7 +53,7 @@ def classify(doc):
 
 
 def gen_doc(g, w, rich):
-    b = DocBuilder(g, w, malformed=0.0, repeat_id=0.2, dup_formal=0.0, multi=(0.2 if rich else 0.0), plain_binary=0.9, refused=0.15)
+    b = DocBuilder(g, w, malformed=0.0, repeat_id=0.2, dup_formal=0.0, multi=(0.2 if rich else 0.0), plain_binary=0.9, refused=0.15, reinstant=0.15)
     if not rich:
         # at most one extra attribute value per record: the printed text has no set-order freedom
         b.other_attrs = (lambda orig: (lambda c, n=None: orig(c, 1 if g.chance(0.6) else 0)))(b.other_attrs)
